@@ -495,7 +495,11 @@ func raceMain(args []string) int {
 				wg.Add(1)
 				go func(k int) {
 					defer wg.Done()
-					req, _ := http.NewRequest("GET", srv.URL+items[k], nil)
+					method, path := "GET", items[k]
+					if strings.HasPrefix(path, "PURGE") {
+						method, path = "FASTLYPURGE", strings.TrimPrefix(path, "PURGE")
+					}
+					req, _ := http.NewRequest(method, srv.URL+path, nil)
 					req.Header.Set("X-Marker", fmt.Sprintf("m%d", k))
 					tr := &http.Transport{}
 					resp, err := tr.RoundTrip(req)
